@@ -28,6 +28,23 @@ func VerifC12_RoundTrip() {
 	verif_Assert(err == nil && err2 == nil, "encryption succeeds")
 	verif_Assert(len(enc) == nonceLen+n+16, "ciphertext is nonce + payload + tag")
 	verif_Assert(bytes.Equal(enc, enc2), "encryption is deterministic")
+	if verif_Bool("otherCallsInBetween") {
+		// the functions are pure: what other callers hashed or encrypted in between
+		// (a second hash of another multihash, a longer passphrase) changes nothing
+		omh, oerr := multihash.Encode([]byte{0x77, 0x88, 0x99}, multihash.IDENTITY)
+		verif_Assume(oerr == nil)
+		_ = SecondMultihash(omh)
+		_, lerr := EncryptValueKey([]byte("other payload"), []byte("a longer passphrase than the one above"))
+		verif_Assume(lerr == nil)
+		var enc3 []byte
+		var err3 error
+		if meta {
+			enc3, err3 = EncryptMetadata(payload, pass)
+		} else {
+			enc3, err3 = EncryptValueKey(payload, pass)
+		}
+		verif_Assert(err3 == nil && bytes.Equal(enc, enc3), "encrypting the same inputs later gives identical bytes, whatever was encrypted or hashed in between")
+	}
 	if meta {
 		dec, derr = DecryptMetadata(enc, pass)
 	} else {
